@@ -728,10 +728,10 @@ def summarize(case):
 def parts(tier):
     return [
         Part(name="predictor", evaluate=evaluate, strategy=lambda: strategy(tier), summarize=summarize,
-             budget={"quick": 160, "thorough": 8000}, min_nontrivial={"quick": 20, "thorough": 1000}),
+             budget={"quick": 160, "thorough": 20000}, min_nontrivial={"quick": 20, "thorough": 1000}),
         Part(name="multi-video", evaluate=evaluate_multi, strategy=strategy_multi,
              summarize=lambda c: {k: v for k, v in c.items()},
-             budget={"quick": 60, "thorough": 3000}, min_nontrivial={"quick": 10, "thorough": 500}),
+             budget={"quick": 60, "thorough": 7500}, min_nontrivial={"quick": 10, "thorough": 500}),
     ]
 
 
